@@ -361,8 +361,12 @@ func (x *router) dispatchToRoutees(ctx *ReceiveContext, msg any, routees []*PID)
 func (x *router) routeByStrategy(ctx *ReceiveContext, msg any, routees []*PID) {
 	switch x.routingStrategy {
 	case RoundRobinRouting:
-		n := atomic.AddUint32(&x.roundRobinNext, 1)
-		routee := routees[(int(n)-1)%len(routees)]
+		// keep the cursor reduced modulo the pool size: a free-running uint32 counter
+		// wraps to 0 after 2^32 messages, which used to yield index -1 (panic, message
+		// dropped) and breaks the cycle for pool sizes that do not divide 2^32.
+		idx := atomic.LoadUint32(&x.roundRobinNext) % uint32(len(routees))
+		atomic.StoreUint32(&x.roundRobinNext, idx+1)
+		routee := routees[idx]
 		ctx.Tell(routee, msg)
 	case RandomRouting:
 		routee := routees[rand.IntN(len(routees))] //nolint:gosec
